@@ -3,6 +3,7 @@
 import json, os
 from vp import val, coqrun, rustrun
 from vp.val import cN, cZ, cbool, clist, cpair, cbytes
+from gen import c17wire
 
 # ---------------------------------------------------------------- constants
 ORIGIN, AS_PATH, NEXTHOP, MED, LOCAL_PREF, ATOMIC, AGGREGATOR, COMMUNITY, ORIGINATOR_ID, CLUSTER_LIST = range(1, 11)
@@ -77,6 +78,30 @@ def wf_nlri(n):
         if 24 * len(ls) + m > 255: return 'label stack of %d labels does not fit the one-octet NLRI length' % len(ls)
         return None
     return 'unmodelled NLRI'
+
+# ---- failing-input classes of the wide part (decidable on what the harness prints of the failing item)
+RTC_FAM, LS_FAM, EVPN_FAM = (1 << 16) | 132, (16388 << 16) | 71, (25 << 16) | 70
+
+def wide_attr_class(a):
+    """a = [code, flags, kind, status, attr...]"""
+    if a[3] == 3 and a[0] in CANON and a[1] != CANON[a[0]]:
+        return 'C17-flags'
+    return None
+
+def wide_nlri_class(n):
+    """n = [family, status, text, wire bytes, ...]"""
+    fam, b = n[0], n[3]
+    if fam == RTC_FAM:
+        if len(b) == 5 and b[0] == 32 and b[1:5] == [0, 0, 0, 0]:
+            return 'C17-rtc'                      # origin AS 0 with any route target
+        if len(b) == 13 and b[0] == 96 and (b[5] not in (0, 1, 2) or b[6] != 2):
+            return 'C17-rtc'                      # a route target the API's three typed forms cannot express
+    if fam == LS_FAM:
+        return 'C17-ls-nlri'
+    if fam == EVPN_FAM and len(b) > 24 and b[0] == 5 and b[1] in (34, 58):
+        if b[24] > (32 if b[1] == 34 else 128):
+            return 'C17-evpn5-len'                # IP-prefix route longer than its address (accepted by the decoder)
+    return None
 
 # ---------------------------------------------------------------- rendering API values as Gallina
 def cstr(bs): return cbytes(bs)
@@ -392,6 +417,7 @@ class Prop:
             return [1, x]
         if c['k'] == 2: return [2, c['api']]
         if c['k'] == 3: return [3, nlri_to_valx(c['n'])]
+        if c['k'] == 4: return [4, c['opts'], c['msg']]
         raise ValueError(c)
 
     def case_to_coq(self, c):
@@ -399,6 +425,7 @@ class Prop:
         if c['k'] == 1: return 'run_api_case %s' % api_to_coq(c['api'])
         if c['k'] == 2: return 'run_api_nlri_case Debug %s' % api_nlri_to_coq(c['api'])
         if c['k'] == 3: return 'run_nlri_case %s' % nlri_to_coq(c['n'])
+        if c['k'] == 4: return '(VL [])'     # the wide part has no model: judged by the oracle only
         raise ValueError(c)
 
     # ---- generation
@@ -431,6 +458,10 @@ class Prop:
             cases.append({'k': 2, 'api': [1, S(t), 64]})
         for _ in range(nn // 2):
             cases.append({'k': 0, 'flags': T, 'code': NEXTHOP, 'data': v6bytes(v6_rand(rng))})
+        # wide differential part: whole UPDATEs of every family / attribute kind (oracle only)
+        for _ in range(1500 if tier == 'quick' else 30000):
+            opts, msg, fam = c17wire.gen_update(rng)
+            cases.append({'k': 4, 'opts': opts, 'msg': msg, 'fam': fam})
         return cases
 
     # ---- running
@@ -442,6 +473,8 @@ class Prop:
         return coqrun.eval_terms('C17', pre, [self.case_to_coq(c) for c in cases])
 
     def canon(self, case, obs):
+        if case['k'] == 4:
+            return []       # not modelled (differential testing of the real round trip only)
         return obs
 
     # ---- Spec oracle on the implementation's observations
@@ -487,6 +520,28 @@ class Prop:
             if obs[2] == [-1]:
                 return 'accepted NLRI panics the encoder'
             return None
+        if c['k'] == 4:
+            if obs[0] == 0:
+                return None
+            fails = []
+            for a in obs[1]:
+                st = a[3]
+                if st != 0:
+                    what = {1: 'changes the value', 2: 'is rejected by attr_from_api', 3: 'changes the attribute flags',
+                            -1: 'panics attr_to_api', -2: 'panics attr_from_api'}[st]
+                    fails.append((wide_attr_class(a), 'round trip of a decoded attribute (code %d) %s' % (a[0], what)))
+            for n in obs[2]:
+                st = n[1]
+                if st != 0:
+                    what = {1: 'changes the value', 2: 'is rejected by net_from_api', -1: 'panics nlri_to_api', -2: 'panics net_from_api'}[st]
+                    fails.append((wide_nlri_class(n), 'round trip of a decoded NLRI (afi %d safi %d) %s' % (n[0] >> 16, n[0] & 0xffff, what)))
+            # a failure outside every listed class is reported first
+            for cls, txt in fails:
+                if cls is None:
+                    return 'wide: ' + txt
+            for cls, txt in fails:
+                return 'wide[%s]: %s' % (cls, txt)
+            return None
         if c['k'] == 3:
             if wf_nlri(nlri_to_valx(c['n'])):
                 return None     # not a value a decoder can produce: outside the quantifier
@@ -496,6 +551,8 @@ class Prop:
         return None
 
     def in_known_class(self, kf, c, obs, why):
+        if c['k'] == 4:
+            return why.startswith('wide[%s]:' % kf['id'])
         if kf['id'] == 'C17-flags':
             # a held attribute of a defined type whose stored flags are not the canonical ones
             return c['k'] == 0 and obs[0] == 1 and obs[1][0] in CANON and obs[1][1] != CANON[obs[1][0]] \
@@ -508,6 +565,8 @@ class Prop:
         if c['k'] in (0, 1, 2) and obs[0] == 1:
             return json.dumps(self.case_to_val(c))
         if c['k'] == 3 and not wf_nlri(nlri_to_valx(c['n'])):
+            return json.dumps(self.case_to_val(c))
+        if c['k'] == 4 and obs[0] == 1 and (obs[1] or obs[2]):
             return json.dumps(self.case_to_val(c))
         return None
 
@@ -524,4 +583,10 @@ class Prop:
             return ['api_nlri', 'api_nlri:%s:%s' % ({0: 'missing', 1: 'prefix', 2: 'labeled'}.get(c['api'][0]), st)]
         if c['k'] == 3:
             return ['nlri', 'nlri:%d:%s' % (c['n'][0], 'wf' if not wf_nlri(nlri_to_valx(c['n'])) else 'not_decodable')]
+        if c['k'] == 4:
+            tags = ['wide', 'wide:%s:%s' % (c.get('fam', '?'), 'decoded' if obs and obs[0] == 1 else 'rejected')]
+            if obs and obs[0] == 1:
+                tags += ['wide:attr_code_%d' % a[0] for a in obs[1] if a[0] in (17, 18, 23, 26, 29, 40) or a[0] not in CANON]
+                tags.append('wide:nlris_%d' % min(len(obs[2]), 3))
+            return tags
         return []
